@@ -422,6 +422,11 @@ impl VirtualSystem {
                 {
                     return Err(Errno::ENOTDIR);
                 }
+                if matches!(access, OfdAccess::WriteOnly | OfdAccess::ReadWrite)
+                    && matches!(inode.borrow().body, FileBody::Directory { .. })
+                {
+                    return Err(Errno::EISDIR);
+                }
                 if flags.contains(OpenFlag::Truncate)
                     && let FileBody::Regular { content, .. } = &mut inode.borrow_mut().body
                 {
@@ -2476,6 +2481,55 @@ mod tests {
                 c"/dir",
                 OfdAccess::ReadOnly,
                 OpenFlag::Directory.into(),
+                Mode::empty(),
+            )
+            .now_or_never()
+            .unwrap();
+        assert_eq!(result, Ok(Fd(4)));
+    }
+
+    #[test]
+    fn open_directory_for_writing() {
+        let system = VirtualSystem::new();
+
+        // Create a regular file and its parent directory
+        let _ = system
+            .open(
+                c"/dir/file",
+                OfdAccess::WriteOnly,
+                OpenFlag::Create.into(),
+                Mode::empty(),
+            )
+            .now_or_never()
+            .unwrap();
+
+        let result = system
+            .open(
+                c"/dir",
+                OfdAccess::WriteOnly,
+                OpenFlag::Create | OpenFlag::Truncate,
+                Mode::ALL_9,
+            )
+            .now_or_never()
+            .unwrap();
+        assert_eq!(result, Err(Errno::EISDIR));
+
+        let result = system
+            .open(
+                c"/dir",
+                OfdAccess::ReadWrite,
+                EnumSet::empty(),
+                Mode::empty(),
+            )
+            .now_or_never()
+            .unwrap();
+        assert_eq!(result, Err(Errno::EISDIR));
+
+        let result = system
+            .open(
+                c"/dir",
+                OfdAccess::ReadOnly,
+                EnumSet::empty(),
                 Mode::empty(),
             )
             .now_or_never()
